@@ -142,8 +142,8 @@ UNIT = Unit(
                      C("env2", "forall|n: UnsealedState<C>, txx: Seq<Transaction>, mid: UnsealedState<C>| next_rel(self.0, n) && txx.to_set() == block.transactions@ && #[trigger] batch_result(n, txx, mid) ==> seal_env(mid) && (spec_tip(mid.network, mid.height, 950000) ==> tip909_env(spec_preseal(mid)))",
                        note="C09 envelope: the arithmetic envelopes of the settlement phases of sealing hold for the block's transactions")],
            ensures=[C("accepted", "res is Ok ==> spec_header(res->Ok_0.0) == block.header && res->Ok_0.1 == block.proposer_action && block_applied(self.0, *block, res->Ok_0.0)", "C06", "C03"),
-                    C("inv_next", "res is Ok ==> chain_ok(res->Ok_0.0) && state_inv(res->Ok_0.0) && spec_builtin_pools(res->Ok_0.0) && pools_ok(res->Ok_0.0.pools@) && builtins_live(res->Ok_0.0) && (spec_tip(res->Ok_0.0.network, res->Ok_0.0.height, 180000) ==> builtins_if_present(res->Ok_0.0)) && hinv_sealed(res->Ok_0.0)", "C16", "C20", "C07", "C09",
-                      note="the state invariants that apply_block requires of the current sealed state hold again of the state it returns: with GenesisConfig::realize + seal as the base case they hold along every chain of accepted blocks (modulo the assumed envelopes / freshness preconditions; before TIP-902 an ordinary ERG/SYM pool may be emptied, so `builtins_if_present` is inductive only from TIP-902 on)"),
+                    C("inv_next", "res is Ok ==> chain_ok(res->Ok_0.0) && state_inv(res->Ok_0.0) && spec_builtin_pools(res->Ok_0.0) && pools_ok(res->Ok_0.0.pools@) && builtins_live(res->Ok_0.0) && builtins_if_present(res->Ok_0.0) && hinv_sealed(res->Ok_0.0)", "C16", "C20", "C07", "C09",
+                      note="the state invariants that apply_block requires of the current sealed state hold again of the state it returns: with GenesisConfig::realize + seal as the base case they hold along every chain of accepted blocks (modulo the assumed envelopes). Since fix 0959dea nothing is required of ERG/SYM before TIP-902: create_builtins seeds it at activation when absent or emptied, so the built-in invariants are inductive from genesis)"),
                     C("locked", "res is Ok ==> forall|k: TxHash| self.0.stakes@.contains_key(k) && self.0.stakes@[k].e_post_end >= (self.0.height.0 + 1) / 200000 ==> #[trigger] res->Ok_0.0.stakes@.contains_key(k)", "C13",
                       note="a registered stake stays registered (so its coin stays locked: check_tx_validity#unlocked) in every block up to and including the last block of the epoch numbered by its end field; next_unsealed#next drops it exactly in the first block of the following epoch"),
                     C("markers", "res is Ok && markers_ok(self.0.coins@.coins) && !deposit_legacy(self.0.network, BlockHeight((self.0.height.0 + 1) as u64)) ==> markers_kept(self.0.coins@.coins, res->Ok_0.0.coins@.coins) && markers_ok(res->Ok_0.0.coins@.coins)", "C19",
